@@ -136,13 +136,27 @@ Definition gstep (gm : Z -> Z) (op : fop) : Z -> Z :=
   | _ => gm
   end.
 
+(* the one operation that makes the connection forget what it has sent: the repaired _parse_transport_parameters
+   when 0-RTT was not accepted (the peer discards the 0-RTT packets) *)
+Definition forgetting (op : fop) : bool := match op with OParamsP PRejected _ _ _ _ _ _ => true | _ => false end.
+
 (* transport parameters never lower a value the connection already holds (RFC 9000 7.4.1) *)
+Definition nn (o : option Z) : Prop := match o with Some v => 0 <= v | None => True end.
 Definition le_opt (cur : Z) (o : option Z) : Prop := match o with Some v => cur <= v | None => True end.
 Definition pguard (c : conn) (op : fop) : Prop :=
   match op with
   | OParams md bl br un sb su =>
       le_opt (c_max_data c) md /\ le_opt (c_msd_bl c) bl /\ le_opt (c_msd_br c) br /\ le_opt (c_msd_uni c) un /\
       le_opt (c_ms_bidi c) sb /\ le_opt (c_ms_uni c) su
+  | OParamsP PTicket md bl br un sb su =>     (* restoring remembered parameters: same guard, an absent value is 0 *)
+      c_max_data c <= orz md 0 /\ c_msd_bl c <= orz bl 0 /\ c_msd_br c <= orz br 0 /\ c_msd_uni c <= orz un 0 /\
+      c_ms_bidi c <= orz sb 0 /\ c_ms_uni c <= orz su 0
+  | OParamsP PAccepted _ _ _ _ _ _ => True    (* NO guard: the repaired function refuses a lowered value itself *)
+  | OParamsP PRejected md bl br un sb su =>   (* values may be LOWER than those held.  They are varints, and the function
+                                                 runs while EncryptedExtensions is handled: no peer frame can have
+                                                 created a stream yet (the tie checks this on every scenario) *)
+      nn md /\ nn bl /\ nn br /\ nn un /\ nn sb /\ nn su /\
+      Forall (fun t => is_local c (t_id t) = true) (c_streams c)
   | _ => True
   end.
 
@@ -151,9 +165,12 @@ Inductive freach : conn -> (Z -> Z) -> Prop :=
 | freach_step c gm op : freach c gm -> pguard c op -> freach (snd (fstep c op)) (gstep gm op).
 
 (* ---------- the invariant ---------- *)
+(* a stream held back by the stream-count limit has sent nothing and sends nothing; the limit it carries is
+   replaced when it is released (_unblock_streams), so only a stream that is NOT held back is required to carry
+   a limit the peer granted *)
 Definition SQ (c : conn) (gm : Z -> Z) (t : strm) : Prop :=
   0 <= s_highest (t_send t) <= t_msdr t /\
-  t_msdr t <= granted c gm (t_id t) /\
+  (t_blocked t = false -> t_msdr t <= granted c gm (t_id t)) /\
   (t_blocked t = true -> s_highest (t_send t) = 0) /\
   (is_local c (t_id t) = true -> t_blocked t = false -> t_id t / 4 < ms_for c (t_id t)).
 
@@ -167,6 +184,7 @@ Record CInv (c : conn) (gm : Z -> Z) : Prop := {
   i_br : 0 <= c_msd_br c;
   i_uni : 0 <= c_msd_uni c;
   i_streams : Forall (SQ c gm) (c_streams c);
+  i_nodup : NoDup (map t_id (c_streams c));
   i_sum : sum_high (c_streams c) = c_used c;
   i_used : c_used c <= c_max_data c;
   i_blk_bidi : BL c (c_streams c) false (c_blk_bidi c);
@@ -183,7 +201,7 @@ Proof.
   intros (Hc & H1 & H2 & H3 & H4 & H5) Hg (A & B & C & D).
   assert (L : forall s, is_local c' s = is_local c s) by (intros s; unfold is_local; rewrite Hc; reflexivity).
   repeat split; try lia; try assumption.
-  - unfold granted, initial_for in *. rewrite L. specialize (Hg (t_id t)).
+  - intros Hb0. specialize (B Hb0). unfold granted, initial_for in *. rewrite L. specialize (Hg (t_id t)).
     destruct (is_local c (t_id t)); [destruct (sid_uni (t_id t))|]; lia.
   - intros Hl Hb. rewrite L in Hl. specialize (D Hl Hb). unfold ms_for in *. destruct (sid_uni (t_id t)); lia.
 Qed.
@@ -217,10 +235,23 @@ Proof.
   - pose proof (i_br _ _ V); lia.
   - pose proof (i_uni _ _ V); lia.
   - eapply Forall_impl; [|exact (i_streams _ _ V)]. intros t. apply SQ_mono; assumption.
+  - exact (i_nodup _ _ V).
   - exact (i_sum _ _ V).
   - pose proof (i_used _ _ V). lia.
   - eapply BL_mono; [exact Hc|exact (i_blk_bidi _ _ V)].
   - eapply BL_mono; [exact Hc|exact (i_blk_uni _ _ V)].
+Qed.
+
+Lemma map_id_upd sid f l : (forall x, t_id (f x) = t_id x) -> map t_id (upd_strm sid f l) = map t_id l.
+Proof.
+  intros Hf. induction l as [|x l IH]; cbn [upd_strm map]; [reflexivity|].
+  destruct (t_id x =? sid); cbn [map]; [rewrite Hf|rewrite IH]; reflexivity.
+Qed.
+
+Lemma find_none_notin sid l : find_strm sid l = None -> ~ In sid (map t_id l).
+Proof.
+  induction l as [|x l IH]; cbn [find_strm map]; [intros _ []|]. destruct (t_id x =? sid) eqn:E; [discriminate|].
+  intros H [Hx|Hx]; [lia|exact (IH H Hx)].
 Qed.
 
 Lemma BL_upd c l uni blk sid f : (forall x, t_id (f x) = t_id x) -> (forall x, t_blocked (f x) = t_blocked x) ->
@@ -257,6 +288,7 @@ Proof.
     + eapply Forall_impl; [|exact (i_streams _ _ V)]. intros x. apply SQ_mono; [exact S|intros; lia].
     + exact Hf.
     + apply (SQ_mono c c' gm gm); [exact S|intros; lia|exact Hq].
+  - rewrite map_id_upd by exact Hi. exact (i_nodup _ _ V).
   - rewrite (sum_upd sid f _ t Hf), (i_sum _ _ V). lia.
   - exact Hm.
   - eapply BL_mono; [reflexivity|]. apply BL_upd; [exact Hi|exact Hb|exact (i_blk_bidi _ _ V)].
@@ -299,6 +331,9 @@ Proof.
   - apply IH; [assumption|]. intros Hin. apply Hn. right; exact Hin.
 Qed.
 
+Lemma NoDup_ids_snoc l t : NoDup (map t_id l) -> find_strm (t_id t) l = None -> NoDup (map t_id (l ++ [t])).
+Proof. intros N Hf. rewrite map_app. cbn [map]. apply NoDup_snoc; [exact N|apply find_none_notin; exact Hf]. Qed.
+
 Lemma for_send_inv c gm sid c1 t : CInv c gm -> for_send c sid = Some (c1, t) ->
   CInv c1 gm /\ find_strm sid (c_streams c1) = Some t.
 Proof.
@@ -326,8 +361,9 @@ Proof.
     + eapply Forall_impl; [|exact (i_streams _ _ V)]. intros x. apply SQ_mono; [exact S|intros; lia].
     + constructor; [|constructor]. apply (SQ_mono c c1 gm gm); [exact S|intros; lia|].
       unfold SQ, t. cbn [t_send t_msdr t_id t_blocked send_init s_highest]. repeat split; try lia.
-      * unfold granted, initial_for. rewrite Hloc. fold msd. lia.
+      * intros _. unfold granted, initial_for. rewrite Hloc. fold msd. lia.
       * intros _ Hb. unfold ms_for. fold maxs. unfold blocked in Hb. lia.
+  - apply NoDup_ids_snoc; [exact (i_nodup _ _ V)|exact Ef].
   - rewrite sum_high_app, (i_sum _ _ V). cbn. lia.
   - exact (i_used _ _ V).
   - eapply BL_mono; [reflexivity|]. pose proof (i_blk_bidi _ _ V) as B.
@@ -369,6 +405,7 @@ Proof.
       pose proof (i_bl _ _ V).
       unfold SQ, granted, initial_for, t. cbn [t_send t_msdr t_id t_blocked]. unfold send_init. cbn [s_highest]. rewrite Hloc.
       repeat split; try (destruct (sid_uni sid); lia); try (intros; discriminate); try (intros; congruence).
+  - apply NoDup_ids_snoc; [exact (i_nodup _ _ V)|exact Ef].
   - rewrite sum_high_app, (i_sum _ _ V). unfold t, send_init. cbn. lia.
   - exact (i_used _ _ V).
   - eapply BL_mono; [reflexivity|]. apply BL_app. exact (i_blk_bidi _ _ V).
@@ -408,6 +445,12 @@ Proof.
       rewrite find_upd_other; [exact Ft'|exact Hid|]. intros ->. rewrite Hu in X1. destruct uni; discriminate.
 Qed.
 
+Lemma unblock_loop_ids msd maxs blk : forall l, map t_id (snd (unblock_loop msd maxs blk l)) = map t_id l.
+Proof.
+  induction blk as [|sid rest IH]; intros l; cbn [unblock_loop]; [reflexivity|].
+  destruct (sid / 4 <? maxs); [|reflexivity]. rewrite IH. apply map_id_upd. reflexivity.
+Qed.
+
 Lemma unblock_inv c gm uni : CInv c gm -> CInv (unblock c uni) gm.
 Proof.
   intros V. unfold unblock. destruct uni.
@@ -421,6 +464,8 @@ Proof.
     + exact (i_br _ _ V).
     + exact (i_uni _ _ V).
     + eapply Forall_impl; [|exact R1]. intros x. apply SQ_mono; [exact S|intros; lia].
+    + replace l with (snd (unblock_loop (c_msd_uni c) (c_ms_uni c) (c_blk_uni c) (c_streams c))) by (rewrite E; reflexivity).
+      rewrite unblock_loop_ids. exact (i_nodup _ _ V).
     + rewrite R2. exact (i_sum _ _ V).
     + exact (i_used _ _ V).
     + eapply BL_mono; [reflexivity|exact R4].
@@ -435,6 +480,8 @@ Proof.
     + exact (i_br _ _ V).
     + exact (i_uni _ _ V).
     + eapply Forall_impl; [|exact R1]. intros x. apply SQ_mono; [exact S|intros; lia].
+    + replace l with (snd (unblock_loop (c_msd_br c) (c_ms_bidi c) (c_blk_bidi c) (c_streams c))) by (rewrite E; reflexivity).
+      rewrite unblock_loop_ids. exact (i_nodup _ _ V).
     + rewrite R2. exact (i_sum _ _ V).
     + exact (i_used _ _ V).
     + eapply BL_mono; [reflexivity|exact R3].
@@ -453,9 +500,105 @@ Proof. intros Hg. apply CInv_grow; try reflexivity; try lia; [apply sc_le_refl|e
 
 Ltac sc_solve := unfold sc_le; cbn [c_client c_msd_bl c_msd_br c_msd_uni c_ms_bidi c_ms_uni]; repeat split; try reflexivity; try lia.
 
+(* the repaired store loop: nothing but the six limits changes; with the check on (or with values that do not
+   lower anything) no limit is lowered, also when the loop stops with PROTOCOL_VIOLATION half way *)
+Lemma store_limits_keep chk c md bl br un sb su :
+  let c' := snd (store_limits chk c md bl br un sb su) in
+  c_client c' = c_client c /\ c_used c' = c_used c /\ c_streams c' = c_streams c /\
+  c_blk_bidi c' = c_blk_bidi c /\ c_blk_uni c' = c_blk_uni c.
+Proof.
+  unfold store_limits.
+  repeat match goal with |- context [if ?b then _ else _] => destruct b end; cbn; auto.
+Qed.
+
+Lemma store_limits_grow chk c md bl br un sb su :
+  chk = true \/ (c_max_data c <= md /\ c_msd_bl c <= bl /\ c_msd_br c <= br /\ c_msd_uni c <= un /\ c_ms_bidi c <= sb /\ c_ms_uni c <= su) ->
+  let c' := snd (store_limits chk c md bl br un sb su) in
+  sc_le c c' /\ c_max_data c <= c_max_data c'.
+Proof.
+  intros H. unfold store_limits, sc_le.
+  destruct (chk && (md <? c_max_data c)) eqn:E1; [cbn; repeat split; lia|].
+  destruct (chk && (bl <? c_msd_bl c)) eqn:E2; [cbn; repeat split; destruct chk; cbn in *; lia|].
+  destruct (chk && (br <? c_msd_br c)) eqn:E3; [cbn; repeat split; destruct chk; cbn in *; lia|].
+  destruct (chk && (un <? c_msd_uni c)) eqn:E4; [cbn; repeat split; destruct chk; cbn in *; lia|].
+  destruct (chk && (sb <? c_ms_bidi c)) eqn:E5; [cbn; repeat split; destruct chk; cbn in *; lia|].
+  destruct (chk && (su <? c_ms_uni c)) eqn:E6; cbn; repeat split; destruct chk; cbn in *; lia.
+Qed.
+
+(* the error outcome of the repaired function is raised exactly when 0-RTT was accepted and a value is lower
+   than the one held *)
+Lemma store_limits_ok chk c md bl br un sb su :
+  fst (store_limits chk c md bl br un sb su) = FOk ->
+  snd (store_limits chk c md bl br un sb su) = with_limits c md bl br un sb su /\
+  (chk = true -> c_max_data c <= md /\ c_msd_bl c <= bl /\ c_msd_br c <= br /\ c_msd_uni c <= un /\ c_ms_bidi c <= sb /\ c_ms_uni c <= su).
+Proof.
+  unfold store_limits.
+  destruct (chk && (md <? c_max_data c)) eqn:E1; [discriminate|].
+  destruct (chk && (bl <? c_msd_bl c)) eqn:E2; [discriminate|].
+  destruct (chk && (br <? c_msd_br c)) eqn:E3; [discriminate|].
+  destruct (chk && (un <? c_msd_uni c)) eqn:E4; [discriminate|].
+  destruct (chk && (sb <? c_ms_bidi c)) eqn:E5; [discriminate|].
+  destruct (chk && (su <? c_ms_uni c)) eqn:E6; [discriminate|].
+  intros _. split; [reflexivity|]. intros ->. cbn in *. lia.
+Qed.
+
+Lemma sum_high_reblock l : sum_high (map blocked_again l) = 0.
+Proof. induction l as [|x l IH]; cbn [map sum_high blocked_again t_send forget s_highest]; [reflexivity|]. rewrite IH. reflexivity. Qed.
+
+Lemma paramsP_keep c pm md bl br un sb su : forgetting (OParamsP pm md bl br un sb su) = false ->
+  c_used (snd (fstep c (OParamsP pm md bl br un sb su))) = c_used c /\
+  c_streams (snd (fstep c (OParamsP pm md bl br un sb su))) = c_streams c.
+Proof.
+  intros Hfo. cbn [fstep]. cbv zeta.
+  destruct pm; cbn [forgetting] in Hfo; try discriminate; cbn [snd fst];
+    match goal with |- context [store_limits ?b _ _ _ _ _ _ _] =>
+      destruct (store_limits_keep b c (orz md 0) (orz bl 0) (orz br 0) (orz un 0) (orz sb 0) (orz su 0)) as (_ & A & B & _) end;
+    split; assumption.
+Qed.
+
+Lemma paramsP_forget c md bl br un sb su :
+  c_used (snd (fstep c (OParamsP PRejected md bl br un sb su))) = 0 /\
+  sum_high (c_streams (snd (fstep c (OParamsP PRejected md bl br un sb su)))) = 0.
+Proof. cbn [fstep]. cbv zeta. cbn [snd fst reblock c_used c_streams]. split; [reflexivity|apply sum_high_reblock]. Qed.
+
+(* ---------- the blocked lists rebuilt by the repaired function ---------- *)
+Lemma find_map_blocked sid l : find_strm sid (map blocked_again l) = option_map blocked_again (find_strm sid l).
+Proof.
+  induction l as [|x l IH]; cbn [map find_strm option_map]; [reflexivity|]. cbn [blocked_again t_id].
+  destruct (t_id x =? sid); [reflexivity|exact IH].
+Qed.
+
+Lemma in_find t l : In t l -> exists t', find_strm (t_id t) l = Some t'.
+Proof.
+  induction l as [|x l IH]; [intros []|]. intros [->|H]; cbn [find_strm].
+  - assert (E : t_id t =? t_id t = true) by lia. rewrite E. eauto.
+  - destruct (t_id x =? t_id t); [eauto|exact (IH H)].
+Qed.
+
+Lemma NoDup_map_filter (p : strm -> bool) l : NoDup (map t_id l) -> NoDup (map t_id (filter p l)).
+Proof.
+  induction l as [|x l IH]; cbn [map filter]; [auto|]. intros N. inversion N as [|? ? Hni N']; subst.
+  destruct (p x); [|exact (IH N')]. cbn [map]. constructor; [|exact (IH N')].
+  intros Hin. apply Hni. apply in_map_iff in Hin. destruct Hin as (y & Hy & Hin). apply filter_In in Hin.
+  apply in_map_iff. exists y. tauto.
+Qed.
+
+Lemma BL_rebuilt c c' uni :
+  c_client c' = c_client c -> NoDup (map t_id (c_streams c)) ->
+  Forall (fun t => is_local c (t_id t) = true) (c_streams c) ->
+  BL c' (map blocked_again (c_streams c)) uni
+     (map t_id (filter (fun t => if uni then sid_uni (t_id t) else negb (sid_uni (t_id t))) (c_streams c))).
+Proof.
+  intros Hc N L. split; [apply NoDup_map_filter; exact N|].
+  intros sid Hin. apply in_map_iff in Hin. destruct Hin as (t & <- & Hin). apply filter_In in Hin. destruct Hin as (Hin & Hp).
+  rewrite Forall_forall in L. split; [destruct uni, (sid_uni (t_id t)); try reflexivity; discriminate|].
+  split; [unfold is_local; rewrite Hc; exact (L t Hin)|].
+  destruct (in_find t _ Hin) as (t' & Ft). exists (blocked_again t'). split; [rewrite find_map_blocked, Ft; reflexivity|reflexivity].
+Qed.
+
 Lemma step_inv c gm op : CInv c gm -> pguard c op -> CInv (snd (fstep c op)) (gstep gm op).
 Proof.
-  intros V G. destruct op as [sid d f|sid code|sid|v|sid v|uni v|md bl br un sb su| |sid ms|sid|sid k a b f|sid k|sid|sid|sid|sid k];
+  intros V G. destruct op as [sid d f|sid code|sid|v|sid v|uni v|md bl br un sb su| |sid ms|sid|sid k a b f|sid k|sid|sid|sid|sid k|buni|pm md bl br un sb su];
     cbn [fstep]; try (change (gstep gm _) with gm).
   - (* send_stream_data *)
     destruct (for_send c sid) as [[c1 t]|] eqn:E; [|exact V]. destruct (for_send_inv _ _ _ _ _ V E) as (V1 & F1).
@@ -535,6 +678,36 @@ Proof.
   - (* STOP_SENDING delivery outcome *)
     destruct (find_strm sid (c_streams c)) as [t|] eqn:Ef; [|exact V]. cbn [snd].
     destruct k; [exact V|exact (CInv_upd_stop _ _ _ _ _ V Ef)].
+  - (* STREAMS_BLOCKED step *) exact V.
+  - (* transport parameters, repaired function: restored from a ticket (guarded), or 0-RTT accepted (unguarded) *)
+    destruct pm; cbn [pguard] in G; cbn [snd fst].
+    + destruct (store_limits_keep false c (orz md 0) (orz bl 0) (orz br 0) (orz un 0) (orz sb 0) (orz su 0)) as (K1 & K2 & K3 & K4 & K5).
+      destruct (store_limits_grow false c (orz md 0) (orz bl 0) (orz br 0) (orz un 0) (orz sb 0) (orz su 0) (or_intror G)) as (S1 & S2).
+      apply (CInv_grow c _ gm gm); [exact S1|intros; lia|exact K3|exact K4|exact K5|exact K2|exact S2|exact V].
+    + destruct (store_limits_keep true c (orz md 0) (orz bl 0) (orz br 0) (orz un 0) (orz sb 0) (orz su 0)) as (K1 & K2 & K3 & K4 & K5).
+      destruct (store_limits_grow true c (orz md 0) (orz bl 0) (orz br 0) (orz un 0) (orz sb 0) (orz su 0) (or_introl eq_refl)) as (S1 & S2).
+      apply (CInv_grow c _ gm gm); [exact S1|intros; lia|exact K3|exact K4|exact K5|exact K2|exact S2|exact V].
+    + (* 0-RTT not accepted: the limits are overwritten (possibly lowered); every stream is blocked again with
+         highest_offset 0, the credit counter restarts from 0, the blocked lists are rebuilt *)
+      destruct G as (N1 & N2 & N3 & N4 & N5 & N6 & L).
+      destruct (store_limits_keep false c (orz md 0) (orz bl 0) (orz br 0) (orz un 0) (orz sb 0) (orz su 0)) as (K1 & K2 & K3 & K4 & K5).
+      destruct (store_limits_ok false c (orz md 0) (orz bl 0) (orz br 0) (orz un 0) (orz sb 0) (orz su 0)) as (Hs & _).
+      { unfold store_limits. cbn [andb]. reflexivity. }
+      set (c1 := snd (store_limits false c (orz md 0) (orz bl 0) (orz br 0) (orz un 0) (orz sb 0) (orz su 0))) in *.
+      assert (Hnn : 0 <= orz md 0 /\ 0 <= orz bl 0 /\ 0 <= orz br 0 /\ 0 <= orz un 0)
+        by (destruct md, bl, br, un; cbn [orz nn] in *; lia).
+      constructor; unfold reblock; cbn [c_msd_bl c_msd_br c_msd_uni c_streams c_used c_max_data c_blk_bidi c_blk_uni]; rewrite ?K3.
+      * rewrite Hs. cbn [with_limits c_msd_bl]. lia.
+      * rewrite Hs. cbn [with_limits c_msd_br]. lia.
+      * rewrite Hs. cbn [with_limits c_msd_uni]. lia.
+      * apply Forall_map. pose proof (i_streams _ _ V) as F. rewrite Forall_forall in F. apply Forall_forall. intros t Hin.
+        destruct (F t Hin) as (A & _). unfold SQ. cbn [blocked_again t_blocked t_send t_msdr forget s_highest].
+        repeat split; try lia; intros; discriminate.
+      * rewrite map_map. cbn [blocked_again t_id]. exact (i_nodup _ _ V).
+      * apply sum_high_reblock.
+      * rewrite Hs. cbn [with_limits c_max_data]. lia.
+      * apply (BL_rebuilt c _ false); [reflexivity|exact (i_nodup _ _ V)|exact L].
+      * apply (BL_rebuilt c _ true); [reflexivity|exact (i_nodup _ _ V)|exact L].
 Qed.
 
 Lemma freach_inv c gm : freach c gm -> CInv c gm.
@@ -545,10 +718,12 @@ Proof. induction 1; [apply init_inv|apply step_inv; assumption]. Qed.
 (* at every moment highest_offset(s) <= max_stream_data_remote(s), and that value is covered by what the peer
    sent: the transport parameter for the stream's kind or a MAX_STREAM_DATA frame for it *)
 Lemma stream_within_limit_l c gm t : freach c gm -> In t (c_streams c) ->
-  0 <= s_highest (t_send t) <= t_msdr t /\ t_msdr t <= granted c gm (t_id t).
+  0 <= s_highest (t_send t) <= t_msdr t /\
+  (t_blocked t = false -> t_msdr t <= granted c gm (t_id t)) /\
+  (t_blocked t = true -> s_highest (t_send t) = 0).
 Proof.
   intros R Hin. pose proof (i_streams _ _ (freach_inv _ _ R)) as F. rewrite Forall_forall in F.
-  destruct (F t Hin) as (A & B & _). split; assumption.
+  destruct (F t Hin) as (A & B & C & _). split; [assumption|split; assumption].
 Qed.
 
 Lemma connection_within_limit_l c gm : freach c gm ->
@@ -604,10 +779,10 @@ Proof.
   intros Hf Hh. unfold upd_send, with_streams. cbn [c_streams c_used]. rewrite (sum_upd _ _ _ _ Hf). cbn [set_send t_send]. split; [lia|reflexivity].
 Qed.
 
-Lemma used_tracks_highest c op :
+Lemma used_tracks_highest c op : forgetting op = false ->
   c_used (snd (fstep c op)) - c_used c = sum_high (c_streams (snd (fstep c op))) - sum_high (c_streams c).
 Proof.
-  destruct op as [sid d f|sid code|sid|v|sid v|uni v|md bl br un sb su| |sid ms|sid|sid k a b f|sid k|sid|sid|sid|sid k]; cbn [fstep].
+  intros Hfo. destruct op as [sid d f|sid code|sid|v|sid v|uni v|md bl br un sb su| |sid ms|sid|sid k a b f|sid k|sid|sid|sid|sid k|buni|pm md bl br un sb su]; cbn [fstep].
   - destruct (for_send c sid) as [[c1 t]|] eqn:E; [|cbn [snd]; lia]. destruct (for_send_sum _ _ _ _ E) as (A & B & F1).
     destruct (write (t_send t) d f) as [o s'] eqn:Ew. cbn [snd].
     assert (Hh : s_highest s' = s_highest (t_send t)) by (replace s' with (snd (write (t_send t) d f)) by (rewrite Ew; reflexivity); apply write_highest).
@@ -656,14 +831,26 @@ Proof.
     rewrite sum_upd_same by reflexivity. lia.
   - destruct (find_strm sid (c_streams c)) as [t|] eqn:Ef; [|cbn [snd]; lia]. cbn [snd].
     destruct k; cbn [with_streams c_used c_streams]; [lia|]. rewrite sum_upd_same by reflexivity. lia.
+  - cbn [snd]. lia.
+  - destruct (paramsP_keep c pm md bl br un sb su Hfo) as (A & B). cbn [fstep] in A, B. rewrite A, B. lia.
+Qed.
+
+(* in every state: if the counter is the sum of the highest offsets before an operation, it is afterwards *)
+Lemma credit_sum_step c op : c_used c = sum_high (c_streams c) ->
+  c_used (snd (fstep c op)) = sum_high (c_streams (snd (fstep c op))).
+Proof.
+  intros H. destruct (forgetting op) eqn:Ef.
+  - destruct op; try discriminate. destruct m; try discriminate.
+    destruct (paramsP_forget c md msd_bl msd_br msd_uni ms_bidi ms_uni) as (A & B). rewrite A, B. reflexivity.
+  - pose proof (used_tracks_highest c op Ef). lia.
 Qed.
 
 (* only _write_stream_frame changes `used`, and by exactly the rise of that stream's highest_offset *)
-Lemma used_changes_only_in_get c op : c_used (snd (fstep c op)) <> c_used c ->
+Lemma used_changes_only_in_get c op : forgetting op = false -> c_used (snd (fstep c op)) <> c_used c ->
   exists sid ms t, op = OGet sid ms /\ find_strm sid (c_streams c) = Some t /\
     c_used (snd (fstep c op)) = c_used c + (s_highest (snd (get_frame (t_send t) ms (Some (max_offset c t)))) - s_highest (t_send t)).
 Proof.
-  intros Hne. destruct op as [sid d f|sid code|sid|v|sid v|uni v|md bl br un sb su| |sid ms|sid|sid k a b f|sid k|sid|sid|sid|sid k].
+  intros Hfo Hne. destruct op as [sid d f|sid code|sid|v|sid v|uni v|md bl br un sb su| |sid ms|sid|sid k a b f|sid k|sid|sid|sid|sid k|buni|pm md bl br un sb su].
   all: try (match goal with |- exists _ _ _, OGet _ _ = _ /\ _ => fail 1 | _ => exfalso; apply Hne; cbn [fstep] end).
   - destruct (for_send c sid) as [[c1 t]|] eqn:E; [|reflexivity]. destruct (for_send_sum _ _ _ _ E) as (A & B & F1).
     destruct (write (t_send t) d f) as [o s']. cbn [snd upd_send with_streams c_used]. exact B.
@@ -697,6 +884,8 @@ Proof.
   - destruct (negb (can_receive c sid)); [reflexivity|]. destruct (find_strm sid (c_streams c)); reflexivity.
   - destruct (find_strm sid (c_streams c)) as [t|]; [|reflexivity]. destruct (negb (t_stop t) || t_blocked t); reflexivity.
   - destruct (find_strm sid (c_streams c)) as [t|]; [|reflexivity]. destruct k; reflexivity.
+  - reflexivity.
+  - exact (proj1 (paramsP_keep c pm md bl br un sb su Hfo)).
 Qed.
 
 (* ---------- stream-count limit and RESET_STREAM ---------- *)
@@ -715,9 +904,10 @@ Lemma reset_within_limit c gm sid code fs c' :
   exists t, find_strm sid (c_streams c) = Some t /\ fs = s_highest (t_send t) /\ fs <= t_msdr t /\ t_msdr t <= granted c gm sid.
 Proof.
   intros R H. cbn [fstep] in H. destruct (find_strm sid (c_streams c)) as [t|] eqn:Ef; [|discriminate].
-  destruct (negb (s_reset_pending (t_send t)) || t_blocked t); [discriminate|]. cbn [get_reset_frame] in H. inversion H; subst.
-  exists t. destruct (stream_within_limit_l c gm t R (find_in _ _ _ Ef)) as (A & B). rewrite (find_id _ _ _ Ef) in B.
-  split; [reflexivity|]. split; [reflexivity|]. split; [lia|exact B].
+  destruct (negb (s_reset_pending (t_send t)) || t_blocked t) eqn:Eg; [discriminate|]. cbn [get_reset_frame] in H. inversion H; subst.
+  assert (Hb : t_blocked t = false) by (destruct (t_blocked t); [rewrite orb_true_r in Eg; discriminate|reflexivity]).
+  exists t. destruct (stream_within_limit_l c gm t R (find_in _ _ _ Ef)) as (A & B & _). rewrite (find_id _ _ _ Ef) in B.
+  split; [reflexivity|]. split; [reflexivity|]. split; [lia|exact (B Hb)].
 Qed.
 
 (* ---------- witnesses ---------- *)
@@ -893,10 +1083,12 @@ Proof.
   { change gm with (gstep gm (OGet sid ms)). replace c' with (snd (fstep c (OGet sid ms))) by (rewrite H; reflexivity).
     apply freach_step; [exact R|exact Logic.I]. }
   destruct (connection_within_limit_l _ _ R') as (_ & Hu').
-  destruct (stream_within_limit_l c gm t R (find_in _ _ _ Hf)) as (A & B). rewrite (find_id _ _ _ Hf) in B.
+  destruct (stream_within_limit_l c gm t R (find_in _ _ _ Hf)) as (A & B0 & _). rewrite (find_id _ _ _ Hf) in B0.
   cbn [fstep] in H. rewrite Hf in H.
   destruct (s_reset_pending (t_send t) || t_blocked t || s_empty (t_send t)) eqn:Eg; [discriminate|].
   assert (He : s_empty (t_send t) = false) by (destruct (s_empty (t_send t)); [rewrite orb_true_r in Eg; discriminate|reflexivity]).
+  assert (Hb : t_blocked t = false) by (destruct (t_blocked t); [rewrite orb_true_r in Eg; discriminate|reflexivity]).
+  pose proof (B0 Hb) as B.
   assert (Hr : s_reset (t_send t) = None).
   { destruct (s_reset (t_send t)) eqn:Er; [|reflexivity]. pose proof (v_reset_empty _ _ (reach_inv _ _ RS)) as X.
     rewrite Er in X. rewrite X in He; [discriminate|discriminate]. }
